@@ -1,0 +1,97 @@
+//go:build verif
+
+package consensus
+
+// Hook for the /verif C15 (write-ahead log) check: run the REAL State.OnStart (through
+// BaseService.Start) on a State that carries only what OnStart's WAL section needs, so that
+// catchupReplay, the "corrupted -> back up, repair, reload, retry once; otherwise start anyway"
+// decision, repairWalFile and loadWalFile/OpenWAL are the code's own. The receive routine is
+// started by OnStart as usual; it idles (no peer, no timeout ever fires) until the State is
+// stopped again, after the WAL has been taken out of it.
+
+import (
+	"fmt"
+	"sync"
+	"time"
+
+	cfg "github.com/tendermint/tendermint/config"
+	tmevents "github.com/tendermint/tendermint/libs/events"
+	"github.com/tendermint/tendermint/libs/log"
+	"github.com/tendermint/tendermint/libs/service"
+)
+
+type walVerifTicker struct{ c chan timeoutInfo }
+
+func (t *walVerifTicker) Start() error                { return nil }
+func (t *walVerifTicker) Stop() error                 { return nil }
+func (t *walVerifTicker) Chan() <-chan timeoutInfo    { return t.c }
+func (t *walVerifTicker) ScheduleTimeout(timeoutInfo) {}
+func (t *walVerifTicker) SetLogger(log.Logger)        {}
+
+type walVerifNoTxs struct{}
+
+func (walVerifNoTxs) TxsAvailable() <-chan struct{} { return nil }
+
+// walVerifLog records what the State logs ("level|message|key=value ...").
+type walVerifLog struct {
+	mtx   sync.Mutex
+	lines []string
+}
+
+func (l *walVerifLog) add(level, msg string, keyvals []interface{}) {
+	s := level + "|" + msg
+	for i := 0; i+1 < len(keyvals); i += 2 {
+		s += fmt.Sprintf("|%v=%v", keyvals[i], keyvals[i+1])
+	}
+	l.mtx.Lock()
+	l.lines = append(l.lines, s)
+	l.mtx.Unlock()
+}
+func (l *walVerifLog) Debug(msg string, keyvals ...interface{}) { l.add("D", msg, keyvals) }
+func (l *walVerifLog) Info(msg string, keyvals ...interface{})  { l.add("I", msg, keyvals) }
+func (l *walVerifLog) Error(msg string, keyvals ...interface{}) { l.add("E", msg, keyvals) }
+func (l *walVerifLog) With(keyvals ...interface{}) log.Logger   { return l }
+
+// VerifWALStart is the outcome of VerifStartWithWAL.
+type VerifWALStart struct {
+	Err error    // what State.OnStart returned
+	Wal WAL      // the WAL the State holds afterwards (a new one after a repair); still running
+	Log []string // what the State logged
+}
+
+// VerifStartWithWAL starts a State at `height` (initial height 1) over the running WAL `wal`
+// stored at walFile, then stops the State again without touching the WAL it ended up with.
+func VerifStartWithWAL(wal WAL, walFile string, height int64) VerifWALStart {
+	conf := cfg.DefaultConsensusConfig()
+	conf.SetWalFile(walFile)
+	lg := &walVerifLog{}
+	cs := &State{
+		config:        conf,
+		wal:           wal,
+		doWALCatchup:  true,
+		done:          make(chan struct{}),
+		timeoutTicker: &walVerifTicker{c: make(chan timeoutInfo)},
+		evsw:          tmevents.NewEventSwitch(),
+		txNotifier:    walVerifNoTxs{},
+	}
+	cs.state.InitialHeight = 1
+	cs.Height = height
+	cs.StartTime = time.Now().Add(time.Hour)
+	cs.BaseService = *service.NewBaseService(lg, "State", cs)
+	err := cs.Start()
+	res := VerifWALStart{Err: err}
+	cs.mtx.Lock()
+	res.Wal = cs.wal
+	cs.wal = nilWAL{}
+	cs.mtx.Unlock()
+	if err == nil {
+		_ = cs.Stop()
+		cs.Wait()
+	} else if cs.evsw.IsRunning() {
+		_ = cs.evsw.Stop()
+	}
+	lg.mtx.Lock()
+	res.Log = append([]string(nil), lg.lines...)
+	lg.mtx.Unlock()
+	return res
+}
